@@ -136,7 +136,7 @@ theorem tie_extractPadding (p : List (BitVec 8)) :
 /-! ## `roundUp` -/
 
 /-- for a non-zero divisor neither `%` panics (Go's `%` is truncated: `Int.tmod`) -/
-theorem roundUp_ok (a b : Int) (hb : b ≠ 0) :
+theorem tie_roundUp_value (a b : Int) (hb : b ≠ 0) :
     Src.tlcp.roundUp a b = .ok (a + Int.tmod (b - Int.tmod a b) b) := by
   unfold Src.tlcp.roundUp Go.modInt
   simp [bind, Except.bind, pure, Except.pure, hb]
@@ -144,7 +144,7 @@ theorem roundUp_ok (a b : Int) (hb : b ≠ 0) :
 /-- **`roundUp`** on the arguments it is called with (lengths and block sizes) -/
 theorem tie_roundUp (a b : Int) (ha : 0 ≤ a) (hb : 0 < b) :
     Src.tlcp.roundUp a b = .ok ((roundUp a.toNat b.toNat : Nat) : Int) := by
-  rw [roundUp_ok a b (by omega)]
+  rw [tie_roundUp_value a b (by omega)]
   obtain ⟨x, rfl⟩ := Int.eq_ofNat_of_zero_le ha
   obtain ⟨y, rfl⟩ := Int.eq_ofNat_of_zero_le (Int.le_of_lt hb)
   have hy : 0 < y := by omega
@@ -165,7 +165,7 @@ theorem tie_roundUp_panics (a b : Int) :
   · rintro ⟨e, h⟩
     by_cases hb : b = 0
     · exact hb
-    · rw [roundUp_ok a b hb] at h; cases h
+    · rw [tie_roundUp_value a b hb] at h; cases h
   · rintro rfl
     exact ⟨"integer divide by zero", by unfold Src.tlcp.roundUp Go.modInt; rfl⟩
 
@@ -174,7 +174,7 @@ theorem tie_roundUp_panics (a b : Int) :
 open Gotlcp.Spec.ServerAuthn Gotlcp.Model.ServerAuthn
 
 /-- the translated switch, for every `int` -/
-theorem requires_eq_true (c : Int) : Src.tlcp.requiresClientCert c = true ↔ (c = 2 ∨ c = 4 ∨ c = 5) := by
+theorem tie_requiresClientCert_iff (c : Int) : Src.tlcp.requiresClientCert c = true ↔ (c = 2 ∨ c = 4 ∨ c = 5) := by
   unfold Src.tlcp.requiresClientCert
   simp only [Id.run, pure]
   by_cases h2 : c = 2 <;> by_cases h4 : c = 4 <;> by_cases h5 : c = 5 <;> simp [h2, h4, h5]
@@ -213,7 +213,7 @@ theorem tie_requiresClientCert (t : Tables) (ht : tlcpTables = some t) :
     cases h : Src.tlcp.requiresClientCert c with
     | false => rfl
     | true =>
-      rcases (requires_eq_true c).mp h with rfl | rfl | rfl
+      rcases (tie_requiresClientCert_iff c).mp h with rfl | rfl | rfl
       · exact absurd (by rw [o2]; rfl) (hc .requireAnyClientCert)
       · exact absurd (by rw [o4]; rfl) (hc .requireAndVerifyClientCert)
       · exact absurd (by rw [o5]; rfl) (hc .requireAndVerifyAnyKeyUsageClientCert)
